@@ -2,16 +2,27 @@ package types
 
 import (
 	"fmt"
+	"reflect"
 )
 
 // JSONValue is an internal type used in storing various types, for converting any type to JSON supported type.
 type JSONValue interface{}
 
+// IsNull reports whether v is a null value: an untyped nil or a nil pointer
+// (a nil slice or map is an empty container, not null).
+func IsNull(v interface{}) bool {
+	if v == nil {
+		return true
+	}
+	rv := reflect.ValueOf(v)
+	return rv.Kind() == reflect.Ptr && rv.IsNil()
+}
+
 // ConvertValueList converts an array of values to JSONSupportedValue
 func ConvertValueList(values []interface{}) ([]interface{}, error) {
 	var jsonValues []interface{}
 	for _, val := range values {
-		if val == nil {
+		if IsNull(val) {
 			return nil, fmt.Errorf("null value cannot be inserted")
 		}
 		jsonValues = append(jsonValues, ConvertToJSONSupportedValue(val))
